@@ -7,7 +7,8 @@ from harness.xser import S
 
 ID = "C12"
 REQUIRED_THEOREMS = ["per_apid", "segStep_same", "segStep_other", "combined_bytes", "unsegmented_alone", "emitted_iff",
-                     "consecutive_spec", "step_count", "at_most_once", "drop_warnings", "open_group_closes", "complete_group", "complete_group_interleaved", "gap_group_dropped"]
+                     "consecutive_spec", "step_count", "at_most_once", "drop_warnings", "open_group_closes", "complete_group", "complete_group_interleaved", "gap_group_dropped", "first_supersedes", "orphan_dropped",
+                     "unsegmented_step"]
 RULE = ("requests `gen <definition> - (1 0 1 <k> 0) 0 (<stream>)` with segment combining on; histories over {FIRST, "
         "CONTINUATION, LAST, UNSEGMENTED} x 2 APIDs x {in-sequence, gap, wrap-around}: exhaustive up to length 3 (quick, "
         "sampled at 3) / 4 (thorough, sampled), random up to length 40; secondary-header lengths k in {0,1,4}; non-trivial "
